@@ -127,6 +127,7 @@ type AWorld struct {
 	rtMaster  *Agent
 	stepA     atomic.Int64 // copy of step readable from other goroutines
 	baseAt    map[int]map[int]string
+	mutSteps  map[string][]int
 	rr        *randRecorder
 	maxQ      map[string]int
 	progress  int
@@ -221,7 +222,10 @@ func (w *AWorld) startWeb(a *Agent) {
 
 func (w *AWorld) startSasl(a *Agent) {
 	a.saslPath = fmt.Sprintf("/run/whawty/%s.sock", a.name)
-	go runSaslAuthSocket(a.saslPath, a.iface) //nolint
+	go func() {
+		w.sched.Register(a.name + ".sasl-accept") // goroutines it starts from function literals are scheduled too
+		runSaslAuthSocket(a.saslPath, a.iface)    //nolint
+	}()
 	synctest.Wait()
 }
 
@@ -243,6 +247,7 @@ func (w *AWorld) addClient(plan []*Call) *Client {
 	}
 	w.clients = append(w.clients, c)
 	go func() {
+		w.sched.Register(fmt.Sprintf("c%d", c.id)) // the client's channel operations inside the agent's code are scheduling points
 		for _, call := range c.plan {
 			<-c.gate
 			w.exec(call)
@@ -495,6 +500,14 @@ func (w *AWorld) observe() {
 			}
 		}
 		w.r.Logf("  fs: %d ops, %d mutations", n, mut)
+		if w.mutSteps == nil {
+			w.mutSteps = map[string][]int{}
+		}
+		for _, rec := range w.fs.Log[w.fsPos:] {
+			if rec.Mut && (rec.Kind == "rename" || rec.Kind == "remove") {
+				w.mutSteps[rec.Real] = append(w.mutSteps[rec.Real], w.step) // when a record changed (scheduler step)
+			}
+		}
 		w.fsPos = len(w.fs.Log)
 	}
 	for _, c := range w.calls {
@@ -553,7 +566,11 @@ func (w *AWorld) loopActions() []action {
 	var out []action
 	for _, p := range w.sched.Runnable() {
 		p := p
-		out = append(out, action{1, "release " + p.Name, func() {
+		desc := "release " + p.Name
+		if p.Yield {
+			desc += " @" + p.Site
+		}
+		out = append(out, action{1, desc, func() {
 			order := simrt.Perm(p.N, w.r.Choose)
 			w.sched.Release(p, order)
 		}})
@@ -654,6 +671,7 @@ func (w *AWorld) drainMode(extra func() bool, clock bool) string {
 		w.observe()
 		before := w.progress
 		picksBefore := w.sched.Picks
+		yielded := 0
 		w.sched.WakeIdle()
 		// start remaining client calls first (a client whose previous call just returned)
 		started := false
@@ -667,7 +685,7 @@ func (w *AWorld) drainMode(extra func() bool, clock bool) string {
 			started = true
 		}
 		// one fair round over the service loops
-		for guard := 0; guard < 400; guard++ {
+		for guard := 0; guard < 1500; guard++ {
 			rs := w.sched.Runnable()
 			if len(rs) == 0 {
 				break
@@ -676,16 +694,18 @@ func (w *AWorld) drainMode(extra func() bool, clock bool) string {
 			w.step++; w.stepA.Store(int64(w.step))
 			w.r.Steps++
 			pb := w.sched.Picks
+			wasYield := p.Yield
 			w.sched.Release(p, simrt.Perm(p.N, w.r.Choose))
 			synctest.Wait()
 			w.observe()
-			if w.sched.Picks > pb {
+			if w.sched.Picks > pb || wasYield {
 				w.r.Logf("step %d (drain): released %s", w.step, p.Name)
 				w.sched.WakeIdle()
+				yielded++
 			}
 		}
 		moved := extra != nil && extra()
-		if w.progress > before || w.sched.Picks > picksBefore || started || moved {
+		if w.progress > before || w.sched.Picks > picksBefore || started || moved || yielded > 0 {
 			fruitless = 0
 			continue
 		}
